@@ -1,4 +1,4 @@
-CONSTANTS MaxN = 3 MaxDepth = 5 Lat <- MCLat
+CONSTANTS MaxN = 3 MaxDepth = 5 Lat <- MCLat DKs <- MCDKsFull
 INIT TSInit
 NEXT TSNext
 INVARIANT InBounds
